@@ -54,6 +54,25 @@ def _branch_hit(ctx, fn, env, var_tests):
 
 
 def check(ctx, rep):
+    # lister: the table of operator tokens (no blank is added around them) lists each symbol operator once, none twice
+    tkm_ = ctx.mod(TK)
+    opn = tkm_.assigns.get('OPERATOR')
+    names_ = [norm(e) for e in opn.elts] if isinstance(opn, ast.Tuple) else []
+    want_ = sorted(n for n in tkm_.assigns if n.startswith('O_') and n not in ('O_REM',))
+    rep.ob('lister.operator-table-complete', 'tokens.OPERATOR holds every symbol-operator token exactly once', sorted(names_) == want_,
+           'OPERATOR = %r, symbol operators = %r: a missing operator is listed with blanks added around it, so the line does not re-enter as typed' % (names_, want_), TK)
+    # lister: the character AFTER a keyword is looked at once the whole token (both bytes of a two-byte token) has been consumed
+    dk = ctx.fn('pcbasic/basic/converter/lister.py:Lister._detokenise_keyword_into')
+    look = [a for a in own_nodes(dk) if isinstance(a, ast.Assign) and norm(a.targets[0]) == 'next_char']
+    consume = [c for c in own_nodes(dk) if isinstance(c, ast.Call) and norm(c) == 'ins.read(1)' and isinstance(c._parent, ast.Expr) and isinstance(c._parent._parent, ast.Try)]
+    rep.ob('lister.lookahead-after-the-whole-token', '_detokenise_keyword_into peeks at the following character after consuming the second token byte',
+           len(look) == 1 and norm(look[0].value) == 'ins.peek(1)' and len(consume) >= 1 and all(c.lineno < look[0].lineno for c in consume),
+           'the look-ahead is taken before a two-byte token is consumed: its second byte is taken for the next character and a blank is inserted (INT( lists as INT ()', ctx.where(dk))
+    # tokeniser: exactly one SPACE after a line number is dropped (it is put back when listing); a TAB is kept
+    tln = ctx.fn(TOK + ':Tokeniser._tokenise_line_number')
+    sk = [c for c in own_nodes(tln) if isinstance(c, ast.Compare) and norm(c.left) == 'ins.peek()']
+    rep.ob('lines.one-space-after-the-number', "_tokenise_line_number drops one b' ' after the number and nothing else",
+           len(sk) == 1 and isinstance(sk[0].ops[0], ast.Eq) and ctx.fold(sk[0].comparators[0]) == b' ', repr([norm(x) for x in sk]), ctx.where(tln))
     from . import c07, _share
     _share.share(ctx, rep, c07, ('literal.',), 'a number literal re-enters with the type its digit count and sigil select')
     from . import c03 as _c03
@@ -290,6 +309,12 @@ def variants(ctx):
         return lambda tree: mu.replace_stmt(tree, lambda st: isinstance(st, ast.Assign) and norm(st.targets[0]) == name, '%s = %s' % (name, val))
 
     return [
+        Va('less-than-missing-from-operator-table', 'break', TK,
+           lambda tree: mu.replace_expr(tree, lambda n: isinstance(n, ast.Tuple) and [norm(e) for e in n.elts][:3] == ['O_GT', 'O_EQ', 'O_LT'], '(O_GT, O_EQ, O_GT, O_PLUS, O_MINUS, O_TIMES, O_DIV, O_CARET, O_INTDIV)'), expect='lister.operator-table-complete'),
+        Va('lookahead-before-the-second-token-byte', 'break', 'pcbasic/basic/converter/lister.py',
+           lambda tree: _look_first(mu.find_def(tree, 'Lister._detokenise_keyword_into')), expect='lister.lookahead-after-the-whole-token'),
+        Va('tab-after-line-number-dropped', 'break', TOK,
+           lambda tree: mu.replace_expr(mu.find_def(tree, 'Tokeniser._tokenise_line_number'), mu.text_is("ins.peek() == b' '"), 'ins.peek() in ins.blanks'), expect='lines.one-space-after-the-number'),
         Va('while-plus-shown-at-line-start', 'break', LST,
            lambda tree: mu.replace_expr(tree, mu.text_is('len(output) >= 5'), 'len(output) > 5'), expect='lister.suffix-test-length'),
         Va('double-sigil-dropped-after-point', 'break', N,
@@ -328,3 +353,14 @@ def _add_kw(tree):
     d.keys.append(ast.Name(id='FOO', ctx=ast.Load()))
     d.values.append(ast.Name(id='KW_FOO', ctx=ast.Load()))
     return True
+
+
+def _look_first(fn):
+    st = [x for x in fn.body if isinstance(x, ast.Assign) and norm(x.targets[0]) == 'next_char']
+    if len(st) != 1:
+        return False
+    fn.body.remove(st[0])
+    k = 1 if isinstance(fn.body[0], ast.Expr) and isinstance(fn.body[0].value, ast.Constant) else 0
+    fn.body.insert(k, st[0])
+    return True
+
